@@ -131,10 +131,10 @@ PROPS["C07"] = {
 }
 
 PROPS["C10"] = {
-    "modules": ["Gmsm.Props.C10", "Gmsm.Props.C10Complete"],
+    "modules": ["Gmsm.Props.C10", "Gmsm.Props.C10Complete", "Gmsm.Props.C10Host"],
     "theorems": [
         "Props.C10.mem_findVerifiedParents", "Props.C10.buildChains_sound", "Props.C10.verify_sound",
-        "Props.C10.buildChains_budget", "Props.C10.eku_unrestricted", "Props.C10.mem_findVerifiedParents_iff", "Props.C10.findVerifiedParents_complete", "Props.C10.buildChains_complete", "Props.C10.goodSuffix_length_le", "Props.C10.verify_complete", "Props.C10.verify_chains_exact", "Props.C10.verify_iff_exists_good_path", "Props.C10.verify_only_if_good_path",
+        "Props.C10.buildChains_budget", "Props.C10.eku_unrestricted", "Props.C10.mem_findVerifiedParents_iff", "Props.C10.findVerifiedParents_complete", "Props.C10.buildChains_complete", "Props.C10.goodSuffix_length_le", "Props.C10.verify_complete", "Props.C10.verify_chains_exact", "Props.C10.verify_iff_exists_good_path", "Props.C10.verify_only_if_good_path", "Props.C10.matchHostnames_eq", "Props.C10.matchLabels_cons", "Props.C10.wildcard_one_label", "Props.C10.wildcard_leftmost_only",
     ],
     "gen_items": [],
     "level": "proof",
@@ -144,7 +144,7 @@ PROPS["C10"] = {
         "Model.X509 mirrors verify.go:178-568 and cert_pool.go findVerifiedParents/contains; tie = `chain` correspondence comparing the sorted set of returned chains (as certificate identities) and the error class",
     ],
     "assumptions": ["SM2 signature verification behaves as the relation signer = parent key (C01)"],
-    "not_proved": ["hostname_match_spec as a standalone characterisation (String functions do not reduce in the kernel; covered by correspondence)"],
+    "not_proved": ["String.splitOn / trimDot themselves (the label-level characterisation matchLabels_cons is proved; the splitting of names into labels is compared by the correspondence run)"],
 }
 
 PROPS["C03"] = {
